@@ -47,6 +47,20 @@ func NewTableHeader
   loop 0 inv [others] forall p addr {klen(p)} :: (p != asnode(n) && p != asnode(row)) ==> klen(p) == old(klen(p))
   loop 0 dec klen(asnode(row))
 // footnote nodes (C16)
+func NewFootnoteList
+  uses nodeModel
+  requires WF()
+  postupdates klen(p) = (p == asnode(result) ? 0 : klen(p))
+  ensures WF()
+  ensures result != nil && fresh(result) && isoNew(asnode(result)) && result.Count == 0
+  modifies nothing
+func NewFootnote
+  uses nodeModel
+  requires WF()
+  postupdates klen(p) = (p == asnode(result) ? 0 : klen(p))
+  ensures WF()
+  ensures result != nil && fresh(result) && isoNew(asnode(result)) && result.Index == -1
+  modifies nothing
 func NewFootnoteBacklink
   uses nodeModel
   requires WF()
